@@ -16,8 +16,11 @@ import random
 
 NUM_VALUES = [0, 1, 2, 3, 5, 7, 10, 12, 20, 25, 50, 100, -1, -4, 0.5, 1.5, 2.25, 10.75]
 STR_VALUES = ["A", "B", "C", "D", "E"]
+DATE_VALUES = ["2020-01-31", "2020-02-29", "2020-03-31", "2020-04-30", "2020-06-30", "2020-07-31", "2020-09-30", "2020-12-31", "2021-03-31"]
 TP_VALUES = ["2020Q1", "2020Q2", "2020Q3", "2021Q1", "2020M01", "2020M06", "2021M12", "2019A", "2020S1", "2022"]
 VIRAL_VALUES = ["A", "B", "C", "N", "M", None]
+# strings that some reader / writer on a data path may take for something else (null tokens, numbers, booleans)
+TRICKY_STR = ["NA", "null", "None", "nan", "N/A", "NULL", "<NA>", "#N/A", "TRUE", "1e5", "00123", "n/a", "NaN", "-", "é"]
 
 
 def _comp(name, typ, role, nullable):
@@ -34,6 +37,10 @@ class Family:
         self.has_me2 = rng.random() < 0.35
         self.has_at = rng.random() < 0.2
         self.viral = (rng.random() < 0.2) if viral is None else viral
+        self.tricky = rng.random() < 0.3
+        self.tp_type = "Date" if (self.has_tp and rng.random() < 0.4) else "Time_Period"
+        self.tp_n = rng.choice([4, 6, 9])
+        self.id2_values = rng.sample(TRICKY_STR, 3) if self.tricky else STR_VALUES[:3]
         # random case variants are exercised by C29, not here; keep canonical names
 
     def ids(self):
@@ -49,7 +56,7 @@ class Family:
         if self.has_id2:
             c.append(_comp("Id_2", "String", "Identifier", False))
         if self.has_tp:
-            c.append(_comp("Id_t", "Time_Period", "Identifier", False))
+            c.append(_comp("Id_t", self.tp_type, "Identifier", False))
         c.append(_comp("Me_1", self.me1_type, "Measure", True))
         if self.has_me2:
             c.append(_comp("Me_2", "Number", "Measure", True))
@@ -70,9 +77,9 @@ class Family:
             tries += 1
             k = [rng.randint(1, id1_max)]
             if self.has_id2:
-                k.append(rng.choice(STR_VALUES[:3]))
+                k.append(rng.choice(self.id2_values))
             if self.has_tp:
-                k.append(rng.choice(TP_VALUES[:4]))
+                k.append(rng.choice(DATE_VALUES[:self.tp_n] if self.tp_type == "Date" else TP_VALUES[:4]))
             if tuple(k) in keys:
                 continue
             keys.add(tuple(k))
@@ -84,7 +91,7 @@ class Family:
             if self.has_me2:
                 r.append(None if rng.random() < 0.12 else float(rng.choice(NUM_VALUES)))
             if self.has_at:
-                r.append(rng.choice(STR_VALUES + [None]))
+                r.append(rng.choice((TRICKY_STR + [""] if self.tricky else STR_VALUES) + [None]))
             if self.viral:
                 r.append(rng.choice(VIRAL_VALUES))
             rows.append(r)
